@@ -156,9 +156,15 @@ DTerminate(s, a, cause) ==
       s4 == IF act.notify /\ act.slabOf # 0 /\ s.alive
             THEN [s3 EXCEPT !.deferQ = Append(@, [Clo("slabrm", 0, act.slabOf, FALSE) EXCEPT !.child = a])]
             ELSE s3
+      \* ret_fail! passes every end of the child on to the parent, ret_failthru! only a failure
+      pass == act.pn = "fail" \/ (act.pn = "failthru" /\ Len(cause) >= 6 /\ SubSeq(cause, 1, 6) = "failed")
+      pcode == (IF act.pn = "fail" THEN "pf" ELSE "pt") \o ToString(a)
+      s5 == Emit([s4 EXCEPT !.actors[a].notify = FALSE],
+                 [e |-> "notify", aid |-> a, cause |-> cause, zombie |-> TRUE])
   IN IF act.notify
-     THEN Emit([s4 EXCEPT !.actors[a].notify = FALSE],
-               [e |-> "notify", aid |-> a, cause |-> cause, zombie |-> TRUE])
+     THEN IF pass /\ act.par # 0 /\ s.alive
+          THEN [s5 EXCEPT !.deferQ = Append(@, [Clo("failcall", 0, act.par, FALSE) EXCEPT !.code = pcode])]
+          ELSE s5
      ELSE s2
 
 (* ---------------------------------------------------------------- *)
@@ -186,11 +192,11 @@ Effects(s, cx) ==
   \cup (IF E("idle") /\ Budget(s) THEN {[op |-> "idle"]} ELSE {})
   \cup (IF E("after") /\ Budget(s) THEN {[op |-> "after", dd |-> dd] : dd \in {0, 2}} ELSE {})
   \cup (IF E("acreate") /\ Budget(s) /\ s.nextAid <= MaxActors /\ s.nextOid <= MaxOwners
-        THEN {[op |-> "acreate"]} ELSE {})
+        THEN {[op |-> "acreate", pn |-> pn] : pn \in IF cx.k = "meth" /\ E("pnotify") THEN {"", "fail", "failthru"} ELSE {""}} ELSE {})
   \cup (IF E("adefer") /\ Budget(s) THEN {[op |-> "adefer", aid |-> a] : a \in ActorsOf(s)} ELSE {})
   \cup (IF E("vdefer") /\ cx.k = "meth" /\ Budget(s) THEN {[op |-> "vdefer"]} ELSE {})
   \cup (IF E("screate") /\ cx.k = "meth" /\ Budget(s) /\ s.nextAid <= MaxActors
-        THEN {[op |-> "screate"]} ELSE {})
+        THEN {[op |-> "screate", pn |-> pn] : pn \in IF E("pnotify") THEN {"", "fail", "failthru"} ELSE {""}} ELSE {})
   \cup (IF E("slablen") /\ cx.k = "top" THEN {[op |-> "slablen", aid |-> a] : a \in ActorsOf(s)} ELSE {})
   \cup (IF E("call") /\ Budget(s)
         THEN {[op |-> "call", aid |-> a, prep |-> p, ho |-> ho, hr |-> hr] :
@@ -267,7 +273,8 @@ ApplyEff(s, cx, f) ==
              pid == IF InActor(cx) THEN s.actors[cx.aid].logid ELSE 0
              act == [inner |-> "prep", bits |-> "prep", strong |-> 1, prepQ |-> << >>, notify |-> TRUE,
                      hasval |-> FALSE, kept |-> << >>, keptR |-> << >>, die |-> "", logid |-> lid,
-                     slabOf |-> 0, slab |-> << >>, sfree |-> << >>, vd |-> << >>]
+                     slabOf |-> 0, slab |-> << >>, sfree |-> << >>, vd |-> << >>,
+                     pn |-> IF cx.k = "meth" THEN f.pn ELSE "", par |-> IF InActor(cx) THEN cx.aid ELSE 0]
              s0 == IF LogAllowed("open")
                    THEN Emit(s, [e |-> "logrec", id |-> lid, level |-> "open", parent |-> pid, marker |-> ""])
                    ELSE s
@@ -275,8 +282,8 @@ ApplyEff(s, cx, f) ==
                              !.nextAid = @ + 1, !.nextOid = @ + 1, !.nextId = @ + 1,
                              !.deferQ = Append(@, c[1])]
              s2 == Emit(s1, [e |-> "acreate", aid |-> a, oid |-> o, parent |-> IF InActor(cx) THEN cx.aid ELSE 0,
-                             slab |-> FALSE, logid |-> lid])
-         IN Op(Emit(s2, SubEv("main", c[1])), [op |-> "acreate", aid |-> a, oid |-> o, item |-> c[1].id])
+                             slab |-> FALSE, logid |-> lid, pnotify |-> act.pn])
+         IN Op(Emit(s2, SubEv("main", c[1])), [op |-> "acreate", aid |-> a, oid |-> o, item |-> c[1].id, pnotify |-> act.pn])
     [] f.op = "adefer" ->
          \* Actor::defer: needs only a reference to the actor, in whatever state it is
          LET c == NewItem(s) IN
@@ -297,7 +304,7 @@ ApplyEff(s, cx, f) ==
              key == IF par.sfree # << >> THEN Head(par.sfree) ELSE Len(par.slab) + 1
              act == [inner |-> "prep", bits |-> "prep", strong |-> 1, prepQ |-> << >>, notify |-> TRUE,
                      hasval |-> FALSE, kept |-> << >>, keptR |-> << >>, die |-> "", logid |-> lid,
-                     slabOf |-> p, slab |-> << >>, sfree |-> << >>, vd |-> << >>]
+                     slabOf |-> p, slab |-> << >>, sfree |-> << >>, vd |-> << >>, pn |-> f.pn, par |-> p]
              s0 == IF LogAllowed("open")
                    THEN Emit(s, [e |-> "logrec", id |-> lid, level |-> "open", parent |-> par.logid, marker |-> ""])
                    ELSE s
@@ -306,8 +313,8 @@ ApplyEff(s, cx, f) ==
              s2 == [s1 EXCEPT !.race = @ \/ \E i \in 1..Len(par.slab) : par.slab[i] # 0 /\ s.actors[par.slab[i]].bits = "zombie",
                              !.actors[p].slab = IF key > Len(par.slab) THEN Append(par.slab, a) ELSE [par.slab EXCEPT ![key] = a],
                              !.actors[p].sfree = IF par.sfree # << >> THEN Tail(par.sfree) ELSE par.sfree]
-             s3 == Emit(s2, [e |-> "acreate", aid |-> a, oid |-> 0, parent |-> p, slab |-> TRUE, logid |-> lid])
-         IN Op(Emit(s3, SubEv("main", c)), [op |-> "acreate", aid |-> a, oid |-> 0, item |-> c.id, slab |-> TRUE])
+             s3 == Emit(s2, [e |-> "acreate", aid |-> a, oid |-> 0, parent |-> p, slab |-> TRUE, logid |-> lid, pnotify |-> f.pn])
+         IN Op(Emit(s3, SubEv("main", c)), [op |-> "acreate", aid |-> a, oid |-> 0, item |-> c.id, slab |-> TRUE, pnotify |-> f.pn])
     [] f.op = "slablen" ->
          LET act == s.actors[f.aid]
              rdy == act.inner = "ready"
@@ -496,6 +503,14 @@ ExecClosure(s, c) ==
          ELSE { [s |-> DropClosures(s, <<c>>), id |-> 0, ops |-> << >>, ret |-> ""] }
     [] c.k = "term" ->
          { [s |-> DTerminate(s, c.aid, "dropped"), id |-> 0, ops |-> << >>, ret |-> ""] }
+    [] c.k = "failcall" ->
+         \* parent.apply(|_, cx, _| cx.fail_string(..)): fails a Ready parent, is held for a Prep one, nothing on a Zombie
+         LET par == s.actors[c.aid] IN
+         IF par.inner = "ready"
+         THEN { [s |-> DTerminate(s, c.aid, "failed:" \o c.code), id |-> 0, ops |-> << >>, ret |-> ""] }
+         ELSE IF par.inner = "prep"
+         THEN { [s |-> [s EXCEPT !.actors[c.aid].prepQ = Append(@, c)], id |-> 0, ops |-> << >>, ret |-> ""] }
+         ELSE { [s |-> s, id |-> 0, ops |-> << >>, ret |-> ""] }
     [] c.k = "dkill" ->
          { [s |-> DropSlabOwner(DTerminate(s, c.aid, "killed:" \o c.code), c.aid), id |-> 0, ops |-> << >>, ret |-> ""] }
     [] c.k = "slabrm" ->
